@@ -5,6 +5,9 @@ use crate::cache::cache::{
 use crate::cache::error::Result;
 use rand::rngs::SmallRng;
 use rand::{Rng, SeedableRng};
+#[cfg(memcrs_verif)]
+use simseam::atomic;
+#[cfg(not(memcrs_verif))]
 use std::sync::atomic;
 use std::sync::Arc;
 
@@ -28,6 +31,9 @@ impl RandomPolicy {
             .memory_usage
             .fetch_add(value, atomic::Ordering::Release);
 
+        #[cfg(memcrs_verif)]
+        let mut small_rng = SmallRng::seed_from_u64(simseam::rng::next());
+        #[cfg(not(memcrs_verif))]
         let mut small_rng = SmallRng::from_entropy();
         while usage > self.memory_limit {
             debug!("Current memory usage: {}", usage);
@@ -66,6 +72,12 @@ impl RandomPolicy {
     fn decr_mem_usage(&self, value: u64) -> u64 {
         self.memory_usage
             .fetch_sub(value, atomic::Ordering::Release)
+    }
+
+    /// Verification hook: the accounted memory usage (read without a scheduling point).
+    #[cfg(memcrs_verif)]
+    pub fn verif_memory_usage(&self) -> u64 {
+        self.memory_usage.peek()
     }
 }
 
